@@ -9,23 +9,23 @@ Require Import GristGen.Relabel_gen.
 Open Scope Z_scope.
 
 Lemma gen_get_range_eq : forall s e n, gen_get_range s e n = get_range s e n.
-Proof. reflexivity. Qed.
+Proof. timeout 60 reflexivity. Qed.
 
 Lemma gen_adj_bisect_key_left_eq : forall orig w key,
   gen_adj_bisect_key_left orig w key = adj_bisect_key_left orig w key.
-Proof. reflexivity. Qed.
+Proof. timeout 60 reflexivity. Qed.
 
 Lemma gen_adj_get_key_eq : forall orig w index, gen_adj_get_key orig w index = adj_get_key orig w index.
-Proof. reflexivity. Qed.
+Proof. timeout 60 reflexivity. Qed.
 
 Lemma gen_count_range_eq : forall orig w b e, gen_count_range orig w b e = count_range orig w b e.
-Proof. reflexivity. Qed.
+Proof. timeout 60 reflexivity. Qed.
 
 Lemma gen_adjust_range_eq : forall orig w b e, gen_adjust_range orig w b e = adjust_range orig w b e.
-Proof. reflexivity. Qed.
+Proof. timeout 60 reflexivity. Qed.
 
 Lemma gen_adjust_all_eq : forall orig w, gen_adjust_all orig w = adjust_all orig w.
-Proof. reflexivity. Qed.
+Proof. timeout 60 reflexivity. Qed.
 
 (* the doubling loop of _find_sparse_enough_range *)
 Lemma gen_sparse_loop_eq : forall orig w b e frac is thresh,
@@ -46,7 +46,14 @@ Lemma gen_find_sparse_enough_range_eq : forall orig w b e,
   gen_find_sparse_enough_range orig w b e = find_sparse_enough_range orig w b e.
 Proof.
   intros. unfold gen_find_sparse_enough_range, find_sparse_enough_range.
-  cbv zeta. rewrite !gen_sparse_loop_eq. reflexivity.
+  cbv zeta. rewrite !gen_sparse_loop_eq.
+  (* the float literals first (evaluated, so that a changed literal fails at once), then the shape *)
+  repeat match goal with
+         | |- context [sparse_loop orig w b e ?c] =>
+             lazymatch c with f114 => fail | f130 => fail | _ => idtac end;
+             first [ replace c with f114 by (vm_compute; reflexivity) | replace c with f130 by (vm_compute; reflexivity) ]
+         end.
+  timeout 60 reflexivity.
 Qed.
 
 Lemma bind_ok_r : forall (A : Type) (r : res A), bind r (fun x => Ok x) = r.
@@ -66,7 +73,7 @@ Proof.
 Qed.
 
 Lemma gen_prepare_inserts_eq : forall orig keys, gen_prepare_inserts orig keys = prepare_inserts_model orig keys.
-Proof. reflexivity. Qed.
+Proof. timeout 60 reflexivity. Qed.
 
 (* the same, for the whole chain: replacing every model function by its generated counterpart changes nothing *)
 Definition gen_prepare_inserts_code (orig keys : list fl) : res (list (Z * fl) * list fl) :=
